@@ -155,6 +155,10 @@ class _ArrayLikeGetter:
 
     def __getitem__(self, slices, asarray=False, lock=None):
         """Call chunk getter on slices set up by :func:`dask.array.from_array`."""
+        shape = tuple(s.stop - s.start for s in slices)
+        if 0 in shape:
+            # An empty selection has a zero-sized placeholder chunk that is not in the store
+            return np.empty(shape, self.dtype)
         return self.getter(self.array_name, slices, self.dtype, **self.kwargs)
 
 
